@@ -1150,4 +1150,229 @@ theorem matchF_terminates_aux (c : Cx α) (F S : Nat) (H : TermHyp c F S) :
           split <;> simp
         | abort ab => simpa using h1
 
+/-! ## the fuel of the compile-time check is adequate (`firstF` never reports `fuel`) -/
+
+theorem firstChoice_no_fuel (mf : G → FRes) : ∀ (opts : List G),
+    (∀ g ∈ opts, mf g ≠ .fuel) → firstChoice mf opts ≠ .fuel := by
+  intro opts
+  induction opts with
+  | nil => intro _; simp [firstChoice]
+  | cons g gs ih =>
+    intro h
+    have h1 := h g (by simp)
+    have h2 := ih (fun g' hg' => h g' (by simp [hg']))
+    cases hm : mf g with
+    | ok f1 me1 =>
+      cases hr : firstChoice mf gs with
+      | ok f2 me2 => simp [firstChoice, hm, hr]
+      | recur n => simp [firstChoice, hm, hr]
+      | fuel => exact absurd hr h2
+    | recur n => simp [firstChoice, hm]
+    | fuel => exact absurd hm h1
+
+theorem firstSeq_no_fuel (mf : G → FRes) : ∀ (items : List G),
+    (∀ g ∈ items, mf g ≠ .fuel) → firstSeq mf items ≠ .fuel := by
+  intro items
+  induction items with
+  | nil => intro _; simp [firstSeq]
+  | cons g gs ih =>
+    intro h
+    have h1 := h g (by simp)
+    have h2 := ih (fun g' hg' => h g' (by simp [hg']))
+    cases hm : mf g with
+    | ok f1 me1 =>
+      cases me1 with
+      | false => simp [firstSeq, hm]
+      | true =>
+        cases gs with
+        | nil => simp [firstSeq, hm]
+        | cons g2 rest =>
+          cases hr : firstSeq mf (g2 :: rest) with
+          | ok f2 me2 =>
+            simp only [firstSeq, hm, if_true]
+            simp only [firstSeq] at hr
+            simp [hr]
+          | recur n =>
+            simp only [firstSeq, hm, if_true]
+            simp only [firstSeq] at hr
+            simp [hr]
+          | fuel => exact absurd hr h2
+    | recur n => simp [firstSeq, hm]
+    | fuel => exact absurd hm h1
+
+theorem filter_length_lt : ∀ (env : Env) (x : Bytes) (b : G), (x, b) ∈ env →
+    (env.filter (fun e => e.1 != x)).length < env.length := by
+  intro env
+  induction env with
+  | nil => intro x b h; simp at h
+  | cons e rest ih =>
+    intro x b h
+    simp only [List.mem_cons] at h
+    by_cases hk : e.1 = x
+    · have : (e.1 != x) = false := by simp [hk]
+      simp only [List.filter, this, List.length_cons]
+      have := List.length_filter_le (fun e => e.1 != x) rest
+      omega
+    · have hne : (e.1 != x) = true := by simpa using hk
+      simp only [List.filter, hne, List.length_cons]
+      rcases h with h | h
+      · exact absurd (by rw [← h]) hk
+      · have := ih x b h; omega
+
+theorem lookup_mem {env : Env} {x : Bytes} {b : G} (h : env.find x = some b) : (x, b) ∈ env := by
+  induction env with
+  | nil => simp [Env.find, List.lookup] at h
+  | cons e rest ih =>
+    rcases e with ⟨k, v⟩
+    simp only [Env.find, List.lookup] at h
+    split at h
+    · rename_i heq
+      have hk : x = k := by simpa using heq
+      simp only [Option.some.injEq] at h
+      subst hk; subst h
+      simp
+    · simp only [List.mem_cons]
+      exact Or.inr (ih h)
+
+theorem firstF_no_fuel (S : Nat) : ∀ (f : Nat) (env : Env) (g : G),
+    (∀ x b, (x, b) ∈ env → b.size ≤ S) → env.length * (S + 1) + g.size ≤ f →
+    firstF f env g ≠ .fuel := by
+  intro f
+  induction f with
+  | zero => intro env g _ h; have := size_pos g; omega
+  | succ f ih =>
+    intro env g hS hf
+    cases g with
+    | tru => simp [firstF]
+    | ws => simp [firstF]
+    | str q => simp [firstF]
+    | tok k l => simp [firstF]
+    | lit k l => simp [firstF]
+    | choice opts stops =>
+      rw [firstF_choice]
+      rw [size_choice] at hf
+      apply firstChoice_no_fuel
+      intro g' hg'
+      have := sizeL_mem g' hg'
+      exact ih env g' hS (by omega)
+    | seq items =>
+      rw [firstF_seq]
+      rw [size_seq] at hf
+      apply firstSeq_no_fuel
+      intro g' hg'
+      have := sizeL_mem g' hg'
+      exact ih env g' hS (by omega)
+    | rep0 g' =>
+      rw [firstF_rep0]
+      rw [size_rep0] at hf
+      have := ih env g' hS (by omega)
+      cases hm : firstF f env g' with
+      | ok f1 me1 => simp
+      | recur n => simp
+      | fuel => exact absurd hm this
+    | rep1 g' =>
+      rw [firstF_rep1]
+      rw [size_rep1] at hf
+      exact ih env g' hS (by omega)
+    | rep01 g' =>
+      rw [firstF_rep01]
+      rw [size_rep01] at hf
+      have := ih env g' hS (by omega)
+      cases hm : firstF f env g' with
+      | ok f1 me1 => simp
+      | recur n => simp
+      | fuel => exact absurd hm this
+    | adjoin a b =>
+      rw [firstF_adjoin]
+      rw [size_adjoin] at hf
+      have := ih env a hS (by omega)
+      cases hm : firstF f env a with
+      | ok f1 me1 => simp
+      | recur n => simp
+      | fuel => exact absurd hm this
+    | var x =>
+      rw [firstF_var]
+      cases hx : env.find x with
+      | none => simp
+      | some body =>
+        simp only
+        have hmem := lookup_mem hx
+        have hlt := filter_length_lt env x body hmem
+        have hb := hS x body hmem
+        apply ih
+        · intro y b hy
+          exact hS y b (List.mem_filter.mp hy).1
+        · have h1 : ((env.filter (fun e => e.1 != x)).length + 1) * (S + 1) ≤ env.length * (S + 1) :=
+            Nat.mul_le_mul_right _ (by omega)
+          rw [Nat.succ_mul] at h1
+          simp only [G.size] at hf
+          omega
+
+theorem choicesL_mem : ∀ {items : List G} {opts : List G}, opts ∈ G.choices.choicesL items →
+    ∃ g ∈ items, opts ∈ g.choices := by
+  intro items
+  induction items with
+  | nil => intro opts h; simp [G.choices.choicesL] at h
+  | cons a rest ih =>
+    intro opts h
+    simp only [G.choices.choicesL, List.mem_append] at h
+    rcases h with h | h
+    · exact ⟨a, by simp, h⟩
+    · obtain ⟨g, hg, hg'⟩ := ih h
+      exact ⟨g, by simp [hg], hg'⟩
+
+/-- The options of every choice inside `g` are smaller than `g`. -/
+theorem choices_size : ∀ (n : Nat) (g : G), g.size ≤ n → ∀ opts ∈ g.choices, ∀ g' ∈ opts, g'.size < g.size := by
+  intro n
+  induction n with
+  | zero => intro g h; have := size_pos g; omega
+  | succ n ih =>
+    intro g hs opts hopts g' hg'
+    cases g with
+    | tru => simp [G.choices] at hopts
+    | ws => simp [G.choices] at hopts
+    | str q => simp [G.choices] at hopts
+    | tok k l => simp [G.choices] at hopts
+    | lit k l => simp [G.choices] at hopts
+    | var x => simp [G.choices] at hopts
+    | choice opts0 stops =>
+      rw [size_choice] at hs ⊢
+      simp only [G.choices, List.mem_append, List.mem_singleton] at hopts
+      rcases hopts with h | h
+      · obtain ⟨g0, hg0, h0⟩ := choicesL_mem h
+        have := sizeL_mem g0 hg0
+        have := ih g0 (by omega) opts h0 g' hg'
+        omega
+      · subst h
+        have := sizeL_mem g' hg'
+        omega
+    | seq items =>
+      rw [size_seq] at hs ⊢
+      simp only [G.choices] at hopts
+      obtain ⟨g0, hg0, h0⟩ := choicesL_mem hopts
+      have := sizeL_mem g0 hg0
+      have := ih g0 (by omega) opts h0 g' hg'
+      omega
+    | rep0 g0 =>
+      rw [size_rep0] at hs ⊢
+      simp only [G.choices] at hopts
+      have := ih g0 (by omega) opts hopts g' hg'
+      omega
+    | rep1 g0 =>
+      rw [size_rep1] at hs ⊢
+      simp only [G.choices] at hopts
+      have := ih g0 (by omega) opts hopts g' hg'
+      omega
+    | rep01 g0 =>
+      rw [size_rep01] at hs ⊢
+      simp only [G.choices] at hopts
+      have := ih g0 (by omega) opts hopts g' hg'
+      omega
+    | adjoin a b =>
+      rw [size_adjoin] at hs ⊢
+      simp only [G.choices, List.mem_append] at hopts
+      rcases hopts with h | h
+      · have := ih a (by omega) opts h g' hg'; omega
+      · have := ih b (by omega) opts h g' hg'; omega
+
 end GopModel.Tpl
